@@ -431,11 +431,13 @@ impl Property for C08 {
                 "The reference evaluator of the script IR (sim/src/script.rs) and the renderer's Rockstar fragment; validated by exact agreement of all fault-free executions on the unchanged tree.".into(),
                 "Which RuntimeError variant/message an I/O fault maps to is not constrained; persistent EINTR and allocation failure are out of scope.".into(),
                 "Inputs that are not valid UTF-8 (torn/flipped bytes) get a narrowed oracle: no panic, stop at fault, output intact up to the damaged line.".into(),
+                "Process arm: 'the program is blocked' is decided by the peer's patience (15 s of silence where the program needs microseconds); which byte of a failing standard output the error is attributed to is not constrained, only that a runtime error is reported and the program stops without further input.".into(),
             ],
             components_real: vec![
                 "rrss::frontend::parser::parse".into(),
                 "rrss::exec::exec_using (interpreter, Environment, std BufReader::read_line, write_fmt/write_all)".into(),
                 "rrss::cli::exec::run_using (a quarter of the scenarios)".into(),
+                "process arm (every 8th scenario in quick, every 4th in thorough): the real rrss binary (`rrss exec`) with real pipes as stdin/stdout, driven by a simulated interactive peer; its stdout made to fail (closed pipe at a chosen listen, full device)".into(),
             ],
             components_stub: vec![
                 "input stream (SimReader) and output stream (SimWriter): simulated, every call scheduled and recorded".into(),
@@ -706,6 +708,68 @@ impl Property for C08 {
                     return res;
                 }
                 stats.inc("fault.fired.read.flipped_byte");
+            }
+        }
+
+        // (e) process arm: the real binary driven by a simulated interactive
+        // peer over pipes, for a sample of the scenarios
+        let nth = if thorough { 4 } else { 8 };
+        if ctx.index % nth == 0 && crate::c08proc::applicable(&sc, &full) {
+            use crate::c08proc::{closable_listens, run_peer, StdoutFault};
+            let scratch = match crate::procworld::Scratch::new() {
+                Ok(s) => s,
+                Err(e) => {
+                    eprintln!("HARNESS ERROR: scratch dir: {}", e);
+                    std::process::exit(2);
+                }
+            };
+            let mut arms = vec![StdoutFault::None];
+            let closable = closable_listens(&full, &sc.input);
+            if !closable.is_empty() {
+                arms.push(StdoutFault::ClosedAtListen(
+                    closable[tape.draw(closable.len() as u32) as usize],
+                ));
+            }
+            if !full.out.is_empty() {
+                arms.push(StdoutFault::DevFull);
+            }
+            for arm in arms {
+                let name = match arm {
+                    StdoutFault::None => "process.none",
+                    StdoutFault::ClosedAtListen(_) => "process.stdout_pipe_closed_at_listen",
+                    StdoutFault::DevFull => "process.stdout_full_device",
+                };
+                if arm != StdoutFault::None {
+                    stats.inc(&format!("fault.configured.{}", name));
+                }
+                match run_peer(&sc, &full, &scratch, arm) {
+                    Err(e) => {
+                        eprintln!("HARNESS ERROR (process arm): {}", e);
+                        std::process::exit(2);
+                    }
+                    Ok(o) => {
+                        res.executions += o.spawns;
+                        res.steps += o.spawns;
+                        stats.inc("count.process_arm_dialogues");
+                        if o.stdout_fault_fired {
+                            stats.inc(&format!("fault.fired.{}", name));
+                        }
+                        if let Some((rule, detail, render)) = o.violation {
+                            res.violation = Some(Violation {
+                                rule: rule.to_string(),
+                                detail,
+                                render,
+                                log_hash: hash_combine(key, hash_bytes(rule.as_bytes())),
+                                tags: vec!["process-arm".into()],
+                            });
+                            res.histories = hist.into_iter().collect();
+                            return res;
+                        }
+                    }
+                }
+            }
+            if !full.listen_marks.is_empty() && !full.says.is_empty() {
+                stats.inc("probe.process_dialogue_with_say_and_listen");
             }
         }
 
